@@ -1,6 +1,7 @@
 //! flatsim — deterministic history simulator with in-contract fault injection for flatcontainer.
 //! See /verif/DESIGN.md. Exit codes: 0 = ran (verdicts are in the JSON output), 2 = harness error.
 
+mod acct;
 mod alloc;
 mod allocs;
 mod catalog;
